@@ -785,11 +785,10 @@ def check_statistics(ctx: Ctx) -> None:
             if isinstance(c, ast.Call) and isinstance(c.func, ast.Name) and c.func.id in emod.imports:
                 q = emod.imports[c.func.id]
                 if q.startswith(("numpy.", "scipy.")):
-                    if q not in EMPIRICAL_TAGS:
-                        raise AnalysisError(f"EmpiricalStatistics.{m}: routine {q} is not in the estimator table")
-                    if EMPIRICAL_TAGS[q]:
-                        etags.add(EMPIRICAL_TAGS[q])
-                        ekw[EMPIRICAL_TAGS[q]] = {k.arg: norm_stmt(k.value) for k in c.keywords}
+                    tag = EMPIRICAL_TAGS.get(q, q)  # an unknown routine is its own functional: it cannot agree
+                    if tag:
+                        etags.add(tag)
+                        ekw[tag] = {k.arg: norm_stmt(k.value) for k in c.keywords}
         ptags = set()
         for n in walk_body(fp):
             if isinstance(n, ast.Attribute) and n.attr in PARAMETRIC_TAGS and (norm_stmt(n.value).endswith(".value") or norm_stmt(n.value).endswith(".value.distribution")):
@@ -900,6 +899,7 @@ WITNESSES = [
     {"name": "parametric-tail-swapped", "file": PST, "old": "func = lambda x: 1 - x if greater else x", "new": "func = lambda x: x if greater else 1 - x", "expect": "19.7"},
     {"name": "empirical-tail-swapped", "file": ES, "old": "        operator = ge if greater else le\n        return {\n            name: mean(\n                operator(", "new": "        operator = le if greater else ge\n        return {\n            name: mean(\n                operator(", "expect": "19.7"},
     {"name": "parametric-maximum-is-numerical", "file": PST, "old": "                distribution.value.math_upper_bound\n                for distribution", "new": "                distribution.value.num_upper_bound\n                for distribution", "expect": "19.7"},
+    {"name": "empirical-mean-is-median", "edits": [{"file": ES, "old": "from numpy import mean\n", "new": "from numpy import mean\nfrom numpy import median\n"}, {"file": ES, "old": "name: mean(self.dataset.get_view(variable_names=name).to_numpy(), 0)", "new": "name: median(self.dataset.get_view(variable_names=name).to_numpy(), 0)"}], "expect": "19.7"},
     {"name": "parametric-mean-is-std", "file": PST, "old": "                distribution.value.mean for distribution in self.__distributions[name]", "new": "                distribution.value.standard_deviation for distribution in self.__distributions[name]", "expect": "19.7"},
 ]
 TWINS = [
